@@ -35,6 +35,7 @@ type decoScenario struct {
 	Action  string `json:"action"` // "close", "cancel", "cancel+close"
 	Drain   bool   `json:"drain"`  // consumer keeps reading after the action
 	Settle  int    `json:"settle"` // 0 ack, 1 nack once then ack, 2 leave the last one unsettled
+	Closers int    `json:"closers"` // concurrent Close callers on the decorated subscriber
 
 	Events        []hookrt.Event `json:"events"`
 	Panics        []string       `json:"panics"`
@@ -183,14 +184,27 @@ func decoRun(rt *hookrt.Runtime, sc *decoScenario, rng *rand.Rand) {
 	}
 
 	closeDone := make(chan struct{})
+	closeStarted := false
 	doClose := func() {
-		go func() {
-			rt.Register(4)
-			rt.Stamp("api.close.call")
-			guard("Close", func() { sub.Close() })
-			rt.Stamp("api.close.ret")
-			close(closeDone)
-		}()
+		if closeStarted {
+			return
+		}
+		closeStarted = true
+		if sc.Closers < 1 {
+			sc.Closers = 1
+		}
+		var wg sync.WaitGroup
+		for c := 0; c < sc.Closers; c++ {
+			wg.Add(1)
+			go func(c int) {
+				defer wg.Done()
+				rt.Register(4 + c)
+				rt.Stamp("api.close.call", fmt.Sprint(c))
+				guard("Close", func() { sub.Close() })
+				rt.Stamp("api.close.ret", fmt.Sprint(c))
+			}(c)
+		}
+		go func() { wg.Wait(); close(closeDone) }()
 	}
 	T := 2 * time.Second
 	switch sc.Action {
@@ -276,7 +290,7 @@ func cmdC07Deco(args []string) error {
 		for _, action := range []string{"close", "cancel", "cancel+close"} {
 			for _, drain := range []bool{false, true} {
 				id++
-				sc := &decoScenario{ID: id, Layers: layers, Buffer: 0, N: 3, Read: 1, Action: action, Drain: drain}
+				sc := &decoScenario{ID: id, Layers: layers, Buffer: 0, N: 3, Read: 1, Action: action, Drain: drain, Closers: 1 + id%3}
 				decoRun(rt, sc, rng)
 				all = append(all, sc)
 			}
@@ -288,6 +302,7 @@ func cmdC07Deco(args []string) error {
 		sc.Read = rng.Intn(sc.N + 1)
 		sc.Action = []string{"close", "cancel", "cancel+close"}[rng.Intn(3)]
 		sc.Drain = rng.Intn(2) == 0
+		sc.Closers = 1 + rng.Intn(3)
 		sc.Settle = rng.Intn(3)
 		if sc.Settle == 1 {
 			sc.Settle = 0
